@@ -498,6 +498,62 @@ fn c11_wrath_read_server_facade() {
     let (ok, pos, large) = c11_wrath_read_server_impl(true, 4, 8);
     kani::cover!(!ok && pos == 4 && large, "failure at the fifth byte");
 }
+/// C11 (quick tier): the client reads a server header from a source that ends after f bytes (f = 0..=5,
+/// symbolic): complete headers decode like the two-step calls; a source that ends early yields an error and
+/// leaves the decrypter as it was (f < 4) or exactly as after the 4-byte attempt (f = 4 on a large header),
+/// and supplying the fifth byte later completes the header. Fragmenting / interrupting readers for this
+/// entry point are the (expensive) thorough-tier harnesses c11_wrath_read_server*.
+#[kani::proof]
+#[kani::unwind(42)]
+#[kani::stub(crate::wrath_header::inner_crypto::InnerCrypto::apply, ich::pad_apply_inner)]
+fn c11_wrath_read_server_eof() {
+    let cd0 = dh::any_client_dec_at(253);
+    let ce0 = eh::any_client_enc_at(252);
+    let w: [u8; 5] = kani::any();
+    let f: usize = kani::any();
+    kani::assume(f <= 5);
+    let facade: bool = kani::any();
+    let mut ref4 = cd0.clone();
+    let att = ref4.attempt_decrypt_server_header([w[0], w[1], w[2], w[3]]);
+    let large = matches!(att, WrathServerAttempt::AdditionalByteRequired);
+    let mut cc = ClientCrypto { decrypt: cd0.clone(), encrypt: ce0.clone() };
+    let mut src: &[u8] = &w[..f];
+    let r = if facade { cc.read_and_decrypt_server_header(&mut src) } else { cc.decrypt.read_and_decrypt_server_header(&mut src) };
+    match r {
+        Ok(h) => {
+            match att {
+                WrathServerAttempt::Header(e) => {
+                    assert!(f >= 4 && h == e && src.len() == f - 4, "C11: wrath read wrapper differs from the attempt call on a small header");
+                    assert!(cdec_same(&cc.decrypt, &ref4), "C11: wrath read wrapper leaves another state than the attempt call");
+                    kani::cover!(f == 5, "small header, one byte left in the source");
+                }
+                WrathServerAttempt::AdditionalByteRequired => {
+                    let e = ref4.decrypt_large_server_header(w[4]);
+                    assert!(f == 5 && h == e && src.is_empty(), "C11: wrath read wrapper differs from the two-step calls on a large header");
+                    assert!(cdec_same(&cc.decrypt, &ref4), "C11: wrath read wrapper leaves another state than the two-step calls");
+                    kani::cover!(true, "large header complete");
+                }
+            }
+        }
+        Err(e) => {
+            core::mem::forget(e);
+            if f < 4 {
+                assert!(cdec_same(&cc.decrypt, &cd0), "C11: failed read of the first four bytes changed the wrath client decrypter");
+                kani::cover!(f == 3, "source ends after three bytes");
+            } else {
+                assert!(f == 4 && large, "C11: wrath read wrapper failed on a complete header");
+                assert!(cdec_same(&cc.decrypt, &ref4), "C11: failure at the fifth byte does not leave the state of the 4-byte attempt");
+                let b: u8 = kani::any();
+                let later = cc.decrypt.decrypt_large_server_header(b);
+                let expect = ref4.decrypt_large_server_header(b);
+                assert!(later == expect && cdec_same(&cc.decrypt, &ref4), "C11: supplying the fifth byte later does not complete the header");
+                kani::cover!(true, "source ends at the fifth byte of a large header");
+            }
+        }
+    }
+    assert!(cenc_same(&cc.encrypt, &ce0), "C11: reading changed the encrypter");
+}
+
 /// C11: Wrath write wrappers with a faulty writer.
 fn c11_wrath_write_client_impl(facade: bool) {
     let ce0 = eh::any_client_enc_at(252);
